@@ -7,6 +7,7 @@ assumes of the two header classes.
 import OfxModel.Generated.Tables
 import OfxModel.Drv.Header
 import OfxProofs.Props.C12
+import OfxProofs.Lemmas.HeaderPipeline
 
 namespace Ofx.Gen
 open Ofx Ofx.Header Ofx.Generated Ofx.Drv.Header
@@ -53,5 +54,16 @@ theorem header_tokens_in_class :
 theorem cp1252_table_shape :
     cp1252High.length = 32 ∧ cp1252High.all (fun e => match e with | some n => (Codec.chr? n).isSome | none => true) = true := by
   decide +kernel
+
+/-- the generated tables admit the constructor defaults `make_header` relies on (`WFV1`, `WFV2` of
+    `Lemmas/HeaderPipeline.lean`), in particular CHARSET NONE ↦ utf_8 -/
+theorem header_wf : WFV1 genV1P ∧ WFV2 genV2P := by
+  refine ⟨⟨by decide +kernel, by decide +kernel, ?_, by decide +kernel, by decide +kernel, by decide +kernel,
+    by decide +kernel, by decide +kernel⟩, ⟨by decide +kernel, by decide +kernel⟩⟩
+  intro n hn
+  have : genV1P.versionLen = some 3 := by decide +kernel
+  rw [this] at hn
+  cases hn
+  exact Nat.le_refl 3
 
 end Ofx.Gen
